@@ -40,6 +40,8 @@ func checkC05(c *Check) {
 	ruleBlocksCloseLatch(c, p, "R05.7")
 	ruleErrorsNotAbsorbed(c, p, "R05.8", readerSideFuncs(p), errAbsorbExempt)
 	ruleSyntheticEOF(c, p, "R05.9")
+	ruleHeaderParsers(c, p, "R05.11")
+	c.RuleDoc["R05.11"] = "the header is parsed only by Reader.init (error latched) and ValidFrameHeader (private frame, whole input)"
 	c.only(func(k string) bool { return strings.HasPrefix(k, "initR.worker#") }, func() { ruleReleaseAfterUse(c, p, "R05.10") })
 	c.RuleDoc["R05.9"] = "io.EOF is synthesised only at the known end-of-stream decisions under their guards (an error of a mandatory field is never rewritten to a clean end)"
 }
@@ -63,6 +65,8 @@ func checkC06(c *Check) {
 	ruleEOSCallsCloseR(c, p, "R06.4")
 	ruleErrorsNotAbsorbed(c, p, "R06.5", readerSideFuncs(p), errAbsorbExempt)
 	ruleBlocksCloseLatch(c, p, "R06.6")
+	ruleLegacyDescriptor(c, p, "R06.7")
+	c.RuleDoc["R06.7"] = "the synthetic descriptor of a legacy frame declares only the block size (legacy frames stay on the sequential path)"
 }
 
 // R05.5: closeR stores only when the latch is empty, under the mutex.
